@@ -161,6 +161,25 @@ func prepareBbolt(scratch string) string {
 	if err := copyGoFiles(shim, dst); err != nil {
 		infra("bbolt shim: %v", err)
 	}
+	// Route the two file-mutating calls of db.go through the seam.
+	dbgo := filepath.Join(dst, "db.go")
+	b, err := os.ReadFile(dbgo)
+	if err != nil {
+		infra("bbolt: %v", err)
+	}
+	s := string(b)
+	for _, r := range [][2]string{
+		{"db.ops.writeAt = db.file.WriteAt", "db.ops.writeAt = verifWrapWriteAt(db, db.file.WriteAt)"},
+		{"db.file.Truncate(int64(sz))", "verifTruncate(db, int64(sz))"},
+	} {
+		if strings.Count(s, r[0]) != 1 {
+			infra("bbolt seam: expected exactly one occurrence of %q in db.go", r[0])
+		}
+		s = strings.Replace(s, r[0], r[1], 1)
+	}
+	if err := os.WriteFile(dbgo, []byte(s), 0o644); err != nil {
+		infra("bbolt: %v", err)
+	}
 	return dst
 }
 
@@ -198,27 +217,28 @@ func cleanup(scratch string) {
 
 // Result mirrors the harness's per-run record.
 type Result struct {
-	Prop     string          `json:"prop"`
-	Seed     uint64          `json:"seed"`
-	OK       bool            `json:"ok"`
-	Class    string          `json:"class,omitempty"`
-	Clause   string          `json:"clause,omitempty"`
-	Detail   string          `json:"detail,omitempty"`
-	Stack    string          `json:"stack,omitempty"`
-	Steps    int             `json:"steps"`
-	Choices  int             `json:"choices"`
-	Hash     string          `json:"hash"`
-	Sig      string          `json:"sig"`
-	SimNS    int64           `json:"sim_ns"`
-	Strategy string          `json:"strategy"`
-	Gs       int             `json:"goroutines"`
-	Faults   map[string]int  `json:"faults,omitempty"`
-	Probes   map[string]int  `json:"probes,omitempty"`
-	Case     json.RawMessage `json:"case,omitempty"`
-	Trivial  bool            `json:"trivial,omitempty"`
-	Sub      int             `json:"sub,omitempty"`
-	Tapes    *TapeDump       `json:"tapes,omitempty"`
-	Trace    json.RawMessage `json:"trace,omitempty"`
+	Prop      string          `json:"prop"`
+	Seed      uint64          `json:"seed"`
+	OK        bool            `json:"ok"`
+	Class     string          `json:"class,omitempty"`
+	Clause    string          `json:"clause,omitempty"`
+	Detail    string          `json:"detail,omitempty"`
+	Stack     string          `json:"stack,omitempty"`
+	Steps     int             `json:"steps"`
+	Choices   int             `json:"choices"`
+	Hash      string          `json:"hash"`
+	Sig       string          `json:"sig"`
+	SimNS     int64           `json:"sim_ns"`
+	Strategy  string          `json:"strategy"`
+	Gs        int             `json:"goroutines"`
+	Faults    map[string]int  `json:"faults,omitempty"`
+	Probes    map[string]int  `json:"probes,omitempty"`
+	Case      json.RawMessage `json:"case,omitempty"`
+	Trivial   bool            `json:"trivial,omitempty"`
+	Sub       int             `json:"sub,omitempty"`
+	Tapes     *TapeDump       `json:"tapes,omitempty"`
+	Trace     json.RawMessage `json:"trace,omitempty"`
+	KnownHits map[string]int  `json:"known_hits,omitempty"`
 }
 
 type TapeDump struct {
@@ -335,6 +355,9 @@ func (a *aggregate) add(r *Result, known []*knownFinding) {
 		a.probes[k] += v
 	}
 	a.strat[r.Strategy]++
+	for k, v := range r.KnownHits {
+		a.knownHits[k] += v
+	}
 	if len(a.samples) < 3 && len(r.Case) > 0 && !r.Trivial {
 		s, _ := json.Marshal(map[string]any{"seed": r.Seed, "steps": r.Steps, "choices": r.Choices, "strategy": r.Strategy, "case": r.Case, "faults": r.Faults})
 		if len(s) < 20000 {
@@ -401,7 +424,7 @@ func runWorkerFull(bin, scratch, prop, tier string, seed0 uint64, n int, deadlin
 		"VERIF_PROP="+prop, "VERIF_TIER="+tier,
 		"VERIF_SEED0="+strconv.FormatUint(seed0, 10), "VERIF_NSEEDS="+strconv.Itoa(n),
 		"VERIF_OUT="+out, "VERIF_DEADLINE="+strconv.FormatInt(deadline.Unix(), 10),
-		"GOMAXPROCS=2", "TMPDIR="+filepath.Join(scratch, "tmp"))
+		"GOMAXPROCS=2", "TMPDIR="+filepath.Join(scratch, "tmp"), "VERIF_KNOWN_FILE="+filepath.Join(verifDir, "known-findings.json"))
 	cmd.Env = append(cmd.Env, extraEnv...)
 	logPath := out + ".log"
 	lf, _ := os.Create(logPath)
@@ -457,7 +480,7 @@ func runReplay(bin, scratch string, rf *ReplayFile, trace bool) (*Result, error)
 	defer os.Remove(out)
 	cmd := exec.Command(bin, "-test.run", "^TestWorker$", "-test.timeout", "0")
 	cmd.Dir = scratch
-	cmd.Env = append(os.Environ(), "VERIF_PROP="+rf.Prop, "VERIF_REPLAY="+p, "VERIF_OUT="+out, "GOMAXPROCS=2", "VERIF_WATCHDOG_S=30", "TMPDIR="+filepath.Join(scratch, "tmp"))
+	cmd.Env = append(os.Environ(), "VERIF_PROP="+rf.Prop, "VERIF_REPLAY="+p, "VERIF_OUT="+out, "GOMAXPROCS=2", "VERIF_WATCHDOG_S=30", "TMPDIR="+filepath.Join(scratch, "tmp"), "VERIF_KNOWN_FILE="+filepath.Join(verifDir, "known-findings.json"))
 	if trace {
 		cmd.Env = append(cmd.Env, "VERIF_TRACE=1")
 	}
@@ -891,6 +914,11 @@ func main() {
 		os.Exit(replay(os.Args[2]))
 	case "selftest":
 		os.Exit(selftest(os.Args[2:]))
+	case "build":
+		// development helper: build the instrumented harness and keep it
+		scratch, _ := prepare("dev")
+		os.MkdirAll(filepath.Join(scratch, "tmp"), 0o755)
+		fmt.Println(scratch)
 	default:
 		infra("unknown command %s", os.Args[1])
 	}
